@@ -28,6 +28,11 @@ does with a single opportunity - in particular declining it behind a guard - is 
                is erased and the pass applied again: its only effect is then about that facet (e.g. inference
                writes back a type and nothing else) and the flag is judged on it alone. gen_exec models also get
                values of unknown rank (Reshape to a runtime shape) and sequence / optional values.
+  carriers     once a pass has settled (always for ClearMetadataAndDocStringPass, now and then for the others), ONE
+               documentation item - a doc_string or one / two metadata_props entries - is put on ONE carrier: the model,
+               a graph object (main graph / nested graph / Function / graph nested in a function body), one node or one
+               value of such a graph, and the pass applied again; the grid carrier x scope class is swept cell by cell,
+               so the only thing the pass can act on, and must report, sits in exactly one place.
   sessions     ONE pass (or composition) instance is applied again and again: to several models in turn (one of
                them a twin of another whose functions have the same identifiers but other bodies) and to the same
                model after edits; every application is judged on the clauses above, and a model on which the
@@ -59,7 +64,8 @@ RULE = ("a case = (generated model with pass bait: Identity/Constant nodes, dupl
         "graph, const_value hints on graph inputs / node outputs that are not initializers (any scope); checker-valid "
         "gen_exec models additionally with values of unknown rank and sequence / optional values, annotated fully, "
         "not at all or without a type; at the fixpoint of a pass single annotation facets (type / shape / one dim / "
-        "both) of node outputs are erased and the pass re-applied) x one built-in pass (all 19, "
+        "both) of node outputs are erased and the pass re-applied; likewise single doc_string / metadata_props items on one "
+        "carrier (model / graph object / node / value) of a graph of each scope class) x one built-in pass (all 19, "
         "plain or under functionalize(), analysis passes included) or a Sequential/PassManager composition "
         "(members and/or the whole composition under functionalize()), or a SESSION: one pass/composition instance "
         "applied 4-8 times to up to three models in turn (a model, its twin with other function bodies, an "
@@ -154,7 +160,17 @@ def plan(tier: str) -> dict:
                    # single annotation facets at the fixpoint; the pass had an effect that was about a TYPE alone
                    "facets_applied": 100 if quick else 2000,
                    "facet_inference_succeeded": 25 if quick else 500,
-                   "facet_effect:type": 6 if quick else 120})
+                   "facet_effect:type": 6 if quick else 120,
+                   # documentation carriers at the fixpoint: a pass ACTED on (and reported) a single item that sat on
+                   # the graph object / on a node of a graph of each scope class below the main graph
+                   "carrier_sweep_applied": 200 if quick else 4000,
+                   "carrier_sweep_modified_true_carrier:graph@main_nested": 5 if quick else 100,
+                   "carrier_sweep_modified_true_carrier:graph@function": 6 if quick else 120,
+                   "carrier_sweep_modified_true_carrier:graph@function_nested": 4 if quick else 80,
+                   "carrier_sweep_modified_true_carrier:node@main_nested": 5 if quick else 100,
+                   "carrier_sweep_modified_true_carrier:node@function_nested": 4 if quick else 80,
+                   "carrier_sweep_carrier:value@function_nested": 6 if quick else 120,
+                   "carrier_sweep_carrier:model@main": 15 if quick else 300})
     return {"cases": 3000 if quick else 60000, "shards": 16, "budget_s": 40 if quick else 560,
             "floors": floors, "min_nontrivial": 100}
 
@@ -687,15 +703,16 @@ def plant_doc(model, g, vis, rng, kind: str, carrier: str) -> None:
             obj.metadata_props[k] = rng.choice(["vf", ""])
 
 
-def plant_item(model, g, vis, gen: gen_ir.IRGen, kind: str, planted: list, carrier: str | None = None):
+def plant_item(model, g, vis, gen: gen_ir.IRGen, kind: str, planted: list, carrier: str | None = None, doc_rng=None):
     """One pattern of the given kind appended to graph g (vis = values of g itself; extended).
     For the documentation kinds the carrier that was used is returned (None otherwise)."""
     if kind in DOC_KINDS:
+        drng = doc_rng or gen.rng
         offered = carriers_of(model, g, vis)
         if carrier is None or carrier not in offered:
             # the graph object itself half of the time: that is the carrier the scope classes differ in
-            carrier = "graph" if gen.rng.random() < 0.5 else gen.rng.choice(offered)
-        plant_doc(model, g, vis, gen.rng, kind, carrier)
+            carrier = "graph" if drng.random() < 0.5 else drng.choice(offered)
+        plant_doc(model, g, vis, drng, kind, carrier)
         gen.features.add("bait:documentation_item")
         return carrier
     rng = gen.rng
@@ -1308,6 +1325,16 @@ def judge_pass(ctx, model, pname, rng, case, fault_kind=None, messy_names=False,
                 return True
             errored = not usable
         if not errored and isinstance(gen, gen_ir.IRGen) and not messy_names:
+            # documentation carriers: the whole grid for the passes that are about documentation, three cells
+            # now and then for the others (own random stream: the draws of the other workloads are unchanged)
+            crng = ctx.rng(case, "carriers")
+            about_docs = any(k in DOC_KINDS for k in RELEVANT_ITEMS.get(pname, ()))
+            if about_docs or crng.random() < 0.15:
+                violated, cur, usable = carriers_at_fixpoint(ctx, p, pname, variant, cur, gen, crng, viol, full=about_docs)
+                if violated:
+                    return True
+                errored = not usable
+        if not errored and isinstance(gen, gen_ir.IRGen) and not messy_names:
             if items_at_fixpoint(ctx, p, pname, variant, cur, gen, viol):
                 return True
     return bool(res.modified)
@@ -1374,7 +1401,8 @@ def items_at_fixpoint(ctx, p, pname, variant, model, gen, viol) -> bool:
     return False
 
 
-def one_item_at_fixpoint(ctx, p, pname, variant, model, g, vis, cls, gen, viol):
+def one_item_at_fixpoint(ctx, p, pname, variant, model, g, vis, cls, gen, viol, kind=None, carrier=None, extras=True,
+                         tag="at_fixpoint", doc_rng=None):
     """`model` is at the fixpoint of p (p reports no modification and changes nothing). ONE further pattern
     is planted in graph g - of a kind the pass is about, most of the time - so that what the pass does with
     this single opportunity (rewrite it, or decline it behind one of its guards) is observed on its own and
@@ -1382,17 +1410,20 @@ def one_item_at_fixpoint(ctx, p, pname, variant, model, g, vis, cls, gen, viol):
     modified flag are judged for this application.
     Returns (status, resulting model, its bytes); status "violation" = a violation was reported."""
     rng = gen.rng
-    rel = RELEVANT_ITEMS.get(pname)
-    kind = rng.choice(rel) if (rel and rng.random() < 0.75) else rng.choice(ITEM_KINDS)
+    if kind is None:
+        # (kind / carrier given: the carrier sweep decides what is planted; extras=False: nothing but the item)
+        rel = RELEVANT_ITEMS.get(pname)
+        kind = rng.choice(rel) if (rel and rng.random() < 0.75) else rng.choice(ITEM_KINDS)
     planted = []
-    plant_item(model, g, vis, gen, kind, planted)
-    plant_scope_and_clash(g, vis, planted, gen, p_scope=0.75, p_clash=0.9)
+    carrier = plant_item(model, g, vis, gen, kind, planted, carrier=carrier, doc_rng=doc_rng)
+    if extras:
+        plant_scope_and_clash(g, vis, planted, gen, p_scope=0.75, p_clash=0.9)
     if invariants.check_model(model) or iso_ir.well_scoped(model):
-        ctx.count("at_fixpoint_precondition_broken")
+        ctx.count(tag + "_precondition_broken")
         return "skipped", model, None
     b0, _ = try_ser(model)
     if b0 is None:
-        ctx.count("at_fixpoint_not_serialisable")
+        ctx.count(tag + "_not_serialisable")
         return "skipped", model, None
     unordered0 = unordered_graphs(model)
     undefined0 = undefined_uses(model)
@@ -1403,13 +1434,16 @@ def one_item_at_fixpoint(ctx, p, pname, variant, model, g, vis, cls, gen, viol):
         if _identity_pass_error_in_chain(e):
             viol(f"identity|{pname}|{variant}|PassError", f"{variant} {pname} after one more '{kind}' item in a {cls} graph at its fixpoint: {e}"[:800])
             return "violation", model, None
-        ctx.count("at_fixpoint_pass_error:" + pname)
-        ctx.count(f"at_fixpoint_pass_exc:{pname}:{type(e).__name__}@{raise_site(e)}")
+        ctx.count(tag + "_pass_error:" + pname)
+        ctx.count(f"{tag}_pass_exc:{pname}:{type(e).__name__}@{raise_site(e)}")
         return "skipped", model, None
-    ctx.count("at_fixpoint_applied")
-    ctx.count("at_fixpoint_item:" + kind)
-    ctx.count("at_fixpoint_scope:" + cls)
-    ctx.count(f"at_fixpoint_item_scope:{kind}@{cls}")
+    ctx.count(tag + "_applied")
+    ctx.count(f"{tag}_item:" + kind)
+    ctx.count(f"{tag}_scope:" + cls)
+    ctx.count(f"{tag}_item_scope:{kind}@{cls}")
+    if carrier is not None:
+        ctx.count(f"{tag}_carrier:{carrier}@{cls}")
+        kind = f"{kind} on the {carrier}"   # (messages only)
     if (res.model is model) != bool(p.in_place):
         viol(f"identity|{pname}", f"{pname}.in_place={p.in_place} but result.model is input: {res.model is model} (one '{kind}' item in a {cls} graph at the fixpoint)")
         return "violation", model, None
@@ -1428,18 +1462,95 @@ def one_item_at_fixpoint(ctx, p, pname, variant, model, g, vis, cls, gen, viol):
         return "violation", model, None
     if not res.modified:
         ctx.count("flag_false_judged")
-        ctx.count("at_fixpoint_flag_false_judged")
+        ctx.count(tag + "_flag_false_judged")
         if b0 != b1:
             d = _first_proto_diff(b0, b1)
             viol(f"modified-false-but-changed|{pname}|{d[0]}",
                  f"{pname} at its fixpoint plus one '{kind}' item in a {cls} graph reported modified=False but the serialised model changed: {d[1]}")
             return "violation", model, None
     else:
-        ctx.count("at_fixpoint_modified_true:" + pname)
+        ctx.count(f"{tag}_modified_true:" + pname)
+        if carrier is not None:
+            ctx.count(f"{tag}_modified_true_carrier:{carrier}@{cls}")
     if not unordered0 and unordered_graphs(res.model):
         viol(f"order-broken|{pname}", f"all graphs were topologically ordered before {pname} (one '{kind}' item in a {cls} graph at the fixpoint); some are not after it")
         return "violation", model, None
     return "applied", res.model, b1
+
+
+def _resettle(ctx, p, pname, variant, cur, b, viol, what):
+    """iterate p on cur (whose bytes are b) until it reports no modification; same judgement as the first fixpoint
+    run. Returns (status, model, bytes): 'settled', 'violation' or 'error' (the pass raised: model unusable)."""
+    nbound, rounds = _model_bound(cur), 0
+    while rounds < nbound:
+        rounds += 1
+        keys_r = set(cur.functions)
+        try:
+            r = p(cur)
+        except Exception as e:  # noqa: BLE001
+            if _identity_pass_error_in_chain(e):
+                viol(f"identity|{pname}|{variant}|PassError", f"{variant} {pname} re-settling ({what}): {e}"[:800])
+                return "violation", cur, b
+            ctx.count("fixpoint_pass_error:" + pname)
+            return "error", cur, b
+        if judge_calls(ctx, keys_r, r.model, pname, f"{variant} {pname} re-settling ({what})", viol):
+            return "violation", cur, b
+        nb, _ = try_ser(r.model)
+        if not r.modified:
+            if b is not None and nb is not None and nb != b:
+                d = _first_proto_diff(b, nb)
+                viol(f"modified-false-but-changed|{pname}|{d[0]}", f"{pname} (re-settling, {what}) reported modified=False but changed: {d[1]}")
+                return "violation", cur, b
+            ctx.count("carrier_sweep_resettle_rounds", rounds)
+            return "settled", r.model, nb
+        cur, b = r.model, nb
+    viol(f"no-fixpoint|{pname}", f"{pname} still reports modified=True after {rounds} rounds (bound {nbound}) following {what}")
+    return "violation", cur, b
+
+
+def carriers_at_fixpoint(ctx, p, pname, variant, model, gen, rng, viol, full: bool):
+    """`model` is at the fixpoint of p. The grid (scope class of a graph) x (carrier: the graph object itself - the
+    Function for a function body -, one of its nodes, one of its values, the model) is swept: in each cell ONE
+    documentation item (a doc_string, or one or two metadata_props entries) is put on ONE carrier object, nothing
+    else is touched, and p is applied. So the only thing in the whole model that p could act on - and has to
+    report if it does - sits on exactly one carrier of one scope class; no other rewrite of the same run can
+    raise the flag for it. p is iterated back to its fixpoint (same judgement) before the next cell.
+    full: every cell the model has (shuffled); otherwise three cells. Returns (violation reported, model, usable)."""
+    cur = model
+    cells = []
+    cls_of = scope_classes(cur)
+    present = {cls_of.get(id(g), "main") for g in all_graphs(cur)}
+    for cls in SCOPE_CLASSES:
+        if cls in present:
+            cells += [(cls, c) for c in CARRIERS if c != "model" or cls == "main"]
+    rng.shuffle(cells)
+    if not full:
+        cells = cells[:3]
+    for cls, carrier in cells:
+        cls_of = scope_classes(cur)   # (a functional pass hands back other objects every time)
+        cands = []
+        for g in all_graphs(cur):
+            if cls_of.get(id(g), "main") == cls:
+                vis = list(g.inputs) + list(g.initializers.values()) + [o for n in g for o in n.outputs if o.name]
+                if carrier in carriers_of(cur, g, vis):
+                    cands.append((g, vis))
+        if not cands:
+            ctx.count(f"carrier_sweep_no_candidate:{carrier}@{cls}")
+            continue
+        g, vis = rng.choice(cands)
+        kind = rng.choice(DOC_KINDS)
+        status, cur, b = one_item_at_fixpoint(ctx, p, pname, variant, cur, g, vis, cls, gen, viol,
+                                              kind=kind, carrier=carrier, extras=False, tag="carrier_sweep", doc_rng=rng)
+        if status == "violation":
+            return True, cur, False
+        if status != "applied":
+            return False, cur, False
+        status, cur, b = _resettle(ctx, p, pname, variant, cur, b, viol, f"after one '{kind}' item on the {carrier} of a {cls} graph at the fixpoint")
+        if status == "violation":
+            return True, cur, False
+        if status != "settled":
+            return False, cur, False
+    return False, cur, True
 
 
 def _model_bound(model) -> int:
